@@ -273,9 +273,10 @@ func readyClosedOnce(c *core.Ctx) {
 		var probs []string
 		okExits := 0
 		astx.ForEachExit(info, mk.Body, func(s *astx.State, kind astx.ExitKind, ret *ast.ReturnStmt) {
-			errBranch := s.AnyStep(func(x ast.Node) bool {
-				as, ok := x.(*ast.AssignStmt)
-				return ok && as.Tok == token.ASSIGN && len(as.Lhs) == 1 && astx.ObjOf(info, as.Lhs[0]) == resultObj(info, mk.Body, doCall, 1)
+			doErr := resultObj(info, mk.Body, doCall, 1)
+			errBranch := s.TookBranch(func(e ast.Expr, pol bool) bool {
+				l, op, r, ok := astx.CompareOp(e)
+				return ok && astx.IsNil(info, r) && astx.ObjOf(info, l) == doErr && (op == token.NEQ) == pol
 			})
 			if errBranch {
 				return
